@@ -339,8 +339,8 @@ def run(ctx):
     rng = ctx.rng
     r_id = check_only(ctx, "ContactKernel", {"Mode": '"identities"'}, invariants=("IdentitiesOK",), tag="ck_identities")
     quats = oct_quats()
-    nrep = 6 if ctx.thorough else 2
-    nstates = 3 if ctx.thorough else 2
+    nrep = 30 if ctx.thorough else 2
+    nstates = 4 if ctx.thorough else 2
     records, wheres, api = [], {}, []
     counts = {"P": 0, "S": 0}
     outcomes = {}
